@@ -188,7 +188,7 @@ fn sweep(run: &Run, name: &str, skels: &[Vec<Sk>], max: usize, unroll: usize, at
 pub fn run(run: &Run) {
     let unroll = run.tier.pick(2, 3);
     let full = run.tier.pick(4, 5);
-    let deep = run.tier.pick(5, 7);
+    let deep = run.tier.pick(5, 6);
     let atoms = run.tier.pick(3, 4);
     run.set_rule(&format!(
         "sweep `full`: every skeleton <= {full} statements (depth <= 3; braced, empty and bare \
